@@ -56,6 +56,19 @@ def fresh_catalog():
                 predictor_metadata=copy.deepcopy(MODELS), default_namespace='mindsdb')
 
 
+def variant_catalog(variant):
+    """Catalog spellings other than the usual one (no default namespace, several projects, names only, legacy dict)."""
+    models = copy.deepcopy(MODELS)
+    if variant == 'no-default-namespace':
+        return dict(integrations=[{'name': n, 'type': 'data'} for n in ('int1', 'int2', 'int3')] + [{'name': p, 'type': 'project'} for p in ('proj', 'proj2', 'proj3', 'mindsdb')],
+                    predictor_metadata=models)
+    if variant == 'names-only':
+        return dict(integrations=['int1', 'int2', 'int3'], predictor_metadata=models, predictor_namespace='mindsdb')
+    if variant == 'legacy-dict':
+        return dict(integrations=['int1', 'int2', 'int3'], predictor_metadata={m['name']: m for m in models}, default_namespace='int1')
+    raise ValueError(variant)
+
+
 def corpus(seed):
     """Deterministic list of (id, api, payload)."""
     r = core.rng_for(seed, 'C20', 'corpus')
@@ -165,6 +178,21 @@ def corpus(seed):
                             'select x.id from (select id from int1.t1 where a in (select b from int2.t2)) as x join int2.t2 on x.id = t2.id',
                             'select * from int1.t1 join proj.m2 where t1.a > 1', 'select * from mindsdb.m1 join int1.t1']):
         out.append((f'plan-noalias:{i}', 'plan', s_))
+    # statements the planner rejects or resolves through the catalog alone, under several catalog spellings (error messages that
+    # list what the catalog knows are results too)
+    k = 0
+    for var in ('no-default-namespace', 'names-only', 'legacy-dict'):
+        for s_ in ['SELECT * FROM t9', 'SELECT * FROM t9 AS a JOIN int1.t1 AS b ON a.id = b.id', 'SELECT * FROM nowhere.t1 AS a JOIN int2.t2 AS b ON a.id = b.id',
+                   'SELECT * FROM int1.t1 AS t JOIN m1 AS m', 'SELECT * FROM int1.t1 AS t JOIN proj9.m1 AS m', 'SELECT a FROM t9 WHERE b IN (SELECT c FROM int2.t2)',
+                   'INSERT INTO t9 (a) SELECT b FROM int1.t1', 'SELECT * FROM int1.t1 AS a JOIN t9 AS b ON a.id = b.id JOIN mindsdb.m1 AS m']:
+            out.append((f'plan-cat:{var}:{k}', 'plan-cat', (s_, var)))
+            k += 1
+    # names spelled like reserved words of one target or another, rendered under every dialect name the renderer knows
+    for i, d in enumerate(['mysql', 'postgresql', 'postgres', 'sqlite', 'mssql', 'oracle', 'Snowflake', 'oracle', 'mysql', 'Snowflake', 'postgresql']):
+        s_ = ['select date, size, comment, level, number, uid, mode from t where user = 1 order by timestamp',
+              'select t.date as size, t.level from t as comment where t.number > 1',
+              'select key, value, type, year, month, rank, rows, role, name, text, zone from tab order by position'][i % 3]
+        out.append((f'render-names:{i}', 'render', (s_, d)))
     # prepared statements: the column-discovery steps of joins (order of the steps is part of the result)
     for i, s in enumerate(['SELECT o.id, c.name, p.title FROM int1.orders AS o JOIN int1.customers AS c ON o.cid = c.id JOIN int1.products AS p ON o.pid = p.id WHERE o.id = ?',
                            'SELECT * FROM int1.orders AS o JOIN int1.customers AS c ON o.cid = c.id',
@@ -190,6 +218,11 @@ def call(api, payload, shared=None):
                 plan = shared['planner'].from_query(parse_sql(payload, 'mindsdb'))      # one planner object, many statements
             else:
                 plan = plan_query(parse_sql(payload, 'mindsdb'), **kw)
+            return ['ok', monitors.struct_key(plan.steps), len(plan.steps)]
+        if api == 'plan-cat':
+            from mindsdb_sql.planner import plan_query
+            text, variant = payload
+            plan = plan_query(parse_sql(text, 'mindsdb'), **variant_catalog(variant))
             return ['ok', monitors.struct_key(plan.steps), len(plan.steps)]
         if api == 'render':
             from mindsdb_sql.render.sqlalchemy_render import SqlalchemyRender
@@ -268,10 +301,12 @@ def class_state():
             cls = importlib.import_module('sqlalchemy.dialects.' + d).dialect
         except Exception:
             continue
-        for klass in cls.__mro__[:3]:
+        for klass in tuple(cls.__mro__[:3]) + tuple(getattr(cls, 'preparer', object).__mro__[:2]):
             for k, v in sorted(vars(klass).items()):
                 if not k.startswith('__') and isinstance(v, (int, float, str, bool, tuple, type(None))):
                     st[f'sa:{d}:{klass.__name__}.{k}'] = repr(v)[:80]
+                elif not k.startswith('__') and isinstance(v, (set, frozenset)) and all(isinstance(x, str) for x in v):
+                    st[f'sa:{d}:{klass.__name__}.{k}'] = core.digest(sorted(v))      # e.g. the reserved words of the identifier preparer
     return core.digest(core.canon(st), n=16)
 
 
@@ -358,7 +393,7 @@ def axis_threads(ctx, items, gold, rounds):
             if ctx.out_of_time():
                 break
             r = core.rng_for(ctx.seed, 'C20', 'threads', ctx.shard, rnd)
-            shared = {'catalog': fresh_catalog(), 'renders': {d: SqlalchemyRender(d) for d in ('mysql', 'postgresql', 'sqlite', 'mssql')}}
+            shared = {'catalog': fresh_catalog(), 'renders': {d: SqlalchemyRender(d) for d in ('mysql', 'postgresql', 'postgres', 'sqlite', 'mssql', 'oracle', 'Snowflake')}}
             # few inputs, repeated by many threads; model-version inputs always in the mix
             pm = [it for it in items if it[0].startswith('plan-model')]
             if rnd % 4 == 2:
@@ -443,7 +478,7 @@ def axis_history(ctx, items, gold, rounds):
         order = order[:90]
         order += r.sample(order, 25)        # some inputs come round again later in the same history
         # one SHARED catalog and renderers for the whole history: re-use must not alter later calls
-        shared = {'catalog': fresh_catalog(), 'renders': {d: SqlalchemyRender(d) for d in ('mysql', 'postgresql', 'sqlite', 'mssql')}} if rnd % 2 else None
+        shared = {'catalog': fresh_catalog(), 'renders': {d: SqlalchemyRender(d) for d in ('mysql', 'postgresql', 'postgres', 'sqlite', 'mssql', 'oracle', 'Snowflake')}} if rnd % 2 else None
         if shared is not None and rnd % 4 == 3:
             from mindsdb_sql.planner.query_planner import QueryPlanner
             shared['planner'] = QueryPlanner(**shared['catalog'])
